@@ -37,7 +37,7 @@ CFG_FIELDS = [
 #            sorted by it (so: any permutation per batch)
 # fault    : [] | [kind, idx, val]   1 drop the row of parameter set idx ; 2 replace its last column
 #            by val ; 3 return it twice
-# setup    : [style, dopt, pstyle, upsert, extra, wo_returning, default_only]   (ignored by the model)
+# setup    : [style, dopt, pstyle, upsert, extra, wo_returning, default_only, d_first]   (ignored by the model)
 #
 # observation:  [cfg echo, mask echo, batches, status, rows, inserted]
 #   batch   = [current_batch_size, batchnum, total_batches, rows_sorted, is_downgraded,
@@ -47,7 +47,7 @@ CFG_FIELDS = [
 #             numbers : numeric paramstyle, the placeholder numbers inside VALUES ; counters: the
 #                       values substituted for _IMV_VALUES_COUNTER
 #   status  = 0 ok | 1 ZeroDivisionError | 2 IndexError | 3 AssertionError | 4 rowcount guard |
-#             5 KeyError guard | 6 never completes (negative size)
+#             5 KeyError guard | 6 never completes (negative size) | 9 any other exception
 #   rows    = the final result rows (sentinel columns trimmed)
 #   inserted= global indices of the parameter sets found in the table afterwards, insertion order
 
@@ -411,7 +411,8 @@ def _layout(sname, pstyle, extra, upsert, defonly, want_sentinel=True):
 
 
 def make_case(rng, style, dopt=0, pstyle=0, sbo=1, returning=1, upsert=0, extra=0, mv=1, defmeta=1,
-              defonly=0, page=1000, maxp=32700, n=5, perm="rand", fault=None, wo_ret=0, kind="grid", dupsent=False):
+              defonly=0, page=1000, maxp=32700, n=5, perm="rand", fault=None, wo_ret=0, kind="grid", dupsent=False,
+              dfirst=0):
     sname = STYLES[style]
     named = int(PSTYLES[pstyle] == "named")
     numeric = int(PSTYLES[pstyle].startswith("numeric"))
@@ -484,6 +485,8 @@ def make_case(rng, style, dopt=0, pstyle=0, sbo=1, returning=1, upsert=0, extra=
         ret = [[1, pos["a"]], [1, pos["b"]], D]
     else:
         ret = [[1, pos["id"]], D]
+    if dfirst:  # RETURNING d, <key columns> instead of <key columns>, d
+        ret = [ret[-1]] + ret[:-1]
     if nsc:
         if implicit or sname == "omitpk":
             ret = ret + [[0]]
@@ -497,7 +500,7 @@ def make_case(rng, style, dopt=0, pstyle=0, sbo=1, returning=1, upsert=0, extra=
         keys = [n - i for i in range(n)]
     else:
         keys = [rng.randint(0, 3 * n + 1) for _ in range(n)]
-    setup = [style, dopt, pstyle, upsert, extra, wo_ret, int(defonly)]
+    setup = [style, dopt, pstyle, upsert, extra, wo_ret, int(defonly), int(dfirst)]
     return {"in": [cfg, mask, sent_pos, ret, tuples, keys, list(fault or []), setup], "kind": kind,
             "model": n >= 2}
 
@@ -513,18 +516,19 @@ def gen_cases(rng, tier):
     combos = [(0, 0), (0, 1), (0, 2), (1, 0), (2, 0), (3, 0), (4, 0), (5, 0), (7, 0)]
     ns = list(range(0, 41))
     # 1. the grid: every n x page x style; paramstyle and permutation rotate (thorough: all paramstyles)
-    #    quick: above 14 rows every (n, page) pair still occurs, with 3 of the 9 styles in rotation
+    #    quick: above 10 rows every (n, page) pair still occurs, with 3 of the 9 styles in rotation
     g = 0
     for n in ns:
         for page in pages:
             for ci, (style, dopt) in enumerate(combos):
                 g += 1
-                if tier != "thorough" and n > 14 and (ci + n + page) % 3:
+                if tier != "thorough" and n > 10 and (ci + n + page) % 3:
                     continue
                 pss = range(4) if tier == "thorough" else [g % 4]
                 for ps in pss:
                     perm = ["rand", "rev", "rand", "id"][(g // 4) % 4] if n > 1 else "id"
-                    cases.append(make_case(rng, style, dopt=dopt, pstyle=ps, page=page, n=n, perm=perm, kind="grid"))
+                    cases.append(make_case(rng, style, dopt=dopt, pstyle=ps, page=page, n=n, perm=perm, kind="grid",
+                                           dfirst=(g // 2) % 2))
     # 2. small-scope exhaustive over the remaining switches (n = 5, page = 2)
     for style, dopt in combos:
         for ps in range(4):
@@ -574,14 +578,14 @@ def gen_cases(rng, tier):
         for page in (1, 2, 1000):
             cases.append(make_case(rng, 6, pstyle=ps, page=page, n=3, kind="omitted-pk"))
     # 5. random larger ones
-    nrand = 4000 if tier == "thorough" else 200
+    nrand = 4000 if tier == "thorough" else 150
     for _ in range(nrand):
         style, dopt = rng.choice(combos)
         cases.append(
             make_case(rng, style, dopt=dopt, pstyle=rng.randrange(4), sbo=rng.choice([1, 1, 1, 0]),
                       extra=rng.choice([0, 0, 1]), page=rng.choice([1, 2, 3, 4, 5, 7, 8, 16, 1000]),
                       maxp=rng.choice([32700, 32700, 0, 12, 20, 33]), n=rng.randint(2, 40),
-                      perm=rng.choice(["rand", "rand", "rev"]), kind="random")
+                      perm=rng.choice(["rand", "rand", "rev"]), dfirst=rng.randrange(2), kind="random")
         )
     rng.shuffle(cases)  # evens out the size of the cases_k.v shards
     return cases
@@ -676,7 +680,7 @@ def _build(setup):
     from sqlalchemy.dialects import sqlite as sqlite_d
     from sqlalchemy.sql.compiler import InsertmanyvaluesSentinelOpts as O
 
-    style, dopt, pstyle, upsert, extra, wo_ret, defonly = setup
+    style, dopt, pstyle, upsert, extra, wo_ret, defonly, dfirst = setup
     sname = STYLES[style]
     ps = PSTYLES[pstyle]
     if ps == "qmark":
@@ -733,7 +737,7 @@ def impl(c):
         impl_setup()
     cfg, mask, sent_pos, rowspec, tuples, keys, fault, setup = c["in"]
     C = dict(zip(CFG_FIELDS, cfg))
-    style, dopt, pstyle, upsert, extra, wo_ret, defonly = setup
+    style, dopt, pstyle, upsert, extra, wo_ret, defonly, dfirst = setup
     sname = STYLES[style]
     n = len(tuples)
     named = PSTYLES[pstyle] == "named"
@@ -775,7 +779,8 @@ def impl(c):
         pkcols = [t.c.id]
     dcol = (t.c.d + sa.bindparam("off")).label("dx") if extra else t.c.d
     if C["is_returning"]:
-        stmt = stmt.returning(*pkcols, dcol, sort_by_parameter_order=bool(C["imv_sbo"]))
+        rcols = [dcol] + pkcols if dfirst else pkcols + [dcol]
+        stmt = stmt.returning(*rcols, sort_by_parameter_order=bool(C["imv_sbo"]))
 
     state = {"base": 0, "cur": None}
     orig_fetch = _default.DefaultExecutionContext.fetchall_for_returning
@@ -903,14 +908,16 @@ def impl(c):
                 elif "Can't match sentinel values" in str(e):
                     status = 5
                 else:
-                    raise
+                    status = 9
             except exc.DBAPIError:
                 if C["page_size"] < 0:
                     status = 6
                 elif n == 0:
                     pass  # a single all-defaults INSERT the table refuses (NOT NULL key): nothing inserted
                 else:
-                    raise
+                    status = 9  # the database rejected a generated statement
+            except Exception:
+                status = 9  # any other exception out of the executemany
             if C["page_size"] < 0 and status in (2, 6):
                 status, batches[:] = 6, []
             else:
@@ -1002,6 +1009,30 @@ def match_finding(c, what):
     return None
 
 
-LEVEL_TEXT = "TODO"
-LEVEL_NOTE = "TODO"
-TECHNIQUE = "TODO"
+LEVEL_TEXT = (
+    "Machine-checked proof (Coq) over the Gallina transcription of the two "
+    "_deliver_insertmanyvalues_batches generators and their consumer loop: for every row count, every "
+    "page size >= 1, every mode / paramstyle / sentinel configuration and every order in which the "
+    "database returns the rows of each statement, every parameter set is sent exactly once and the n-th "
+    "returned row is the row of the n-th parameter set (guarded by: parameters outside VALUES do not "
+    "differ per row; sentinel columns have client-side values or implicit support - both exclusions are "
+    "proved to be real defects and replayed as known findings); mode decision safety, batch partition, "
+    "total_batches, max_params clamp, positional / numeric / named parameter expansion, the two merge "
+    "guards. The tie to the code: pinned normalised source + decision/arithmetic expressions re-extracted "
+    "from the AST and proved equal to the model's on every run + behavioural correspondence on SQLite "
+    "with adversarially permuted RETURNING rows."
+)
+LEVEL_NOTE = (
+    "Trusted: Coq kernel; the hand transcription (checked by source pin, the generated C12_gen.v and the "
+    "correspondence); the database hypothesis (one row per VALUES row in any order; increasing "
+    "autoincrement values in VALUES order for implicit sentinels - validated on SQLite only); the SQL "
+    "text of the rewritten statement is observed by the harness, not modelled. PostgreSQL / MariaDB / "
+    "MSSQL are not executed: their code paths (implicit sentinel, INSERT..SELECT counter form) run on "
+    "SQLite with the dialect flags switched in the harness process. No axioms (Print Assumptions: closed "
+    "under the global context)."
+)
+TECHNIQUE = (
+    "Coq proof by induction over fuel / batch list, permutation and sortedness arguments with the database "
+    "as a universally quantified function; AST expression translation with per-run equality lemmas; "
+    "small-scope exhaustive + random model/impl correspondence with a patched fetchall_for_returning"
+)
